@@ -212,3 +212,24 @@ def model_eval(exprs: Sequence[str], timeout: int = 120, imports: Sequence[str] 
         return None
     finally:
         shutil.rmtree(d, ignore_errors=True)
+
+
+def theorems_in_background(ck: Ck, props_file: str):
+    """`ck.theorems` (one coqc run printing the assumptions of every theorem: single-threaded, 10-15 s of CPU for the lia-heavy
+    proofs) started in a thread, so that it overlaps with the instance obligations and the correspondences of the main thread."""
+    from concurrent.futures import ThreadPoolExecutor
+    ex = ThreadPoolExecutor(1)
+    return ex, ex.submit(ck.theorems, props_file)
+
+
+def join_theorems(ck: Ck, started) -> None:
+    """Wait for `theorems_in_background` and put its obligations where a sequential call would have put them (directly after the
+    build / hygiene entries), so that the evidence file does not depend on timing."""
+    ex, fut = started
+    fut.result()
+    ex.shutdown()
+    pre = ('theorem:', 'assumptions:')
+    th = [o for o in ck.obligations if o['name'].startswith(pre)]
+    rest = [o for o in ck.obligations if not o['name'].startswith(pre)]
+    i = max((k + 1 for k, o in enumerate(rest) if o['name'].startswith(('build:', 'hygiene:'))), default=len(rest))
+    ck.obligations[:] = rest[:i] + th + rest[i:]
